@@ -167,7 +167,11 @@ func (ip *Inode) FreeInode(atxn *alloctxn.AllocTxn) {
 func (ip *Inode) Resize(atxn *alloctxn.AllocTxn, sz uint64) bool {
 	var newSz = sz
 	var doshrink = false
-	oldsz := util.RoundUp(ip.Size, disk.BlockSize)
+	var oldsz = util.RoundUp(ip.Size, disk.BlockSize)
+	if ip.ShrinkSize > oldsz {
+		// an earlier shrink is still in progress; keep freeing from there
+		oldsz = ip.ShrinkSize
+	}
 	util.DPrintf(5, "Resize %v to sz %d\n", oldsz, newSz)
 	if sz < ip.Size && sz%disk.BlockSize != 0 {
 		ip.zeroTail(atxn, sz)
